@@ -7,6 +7,7 @@
 import Djc.Proofs.Render
 import Djc.Proofs.Plain
 import Djc.Proofs.LeafSpec
+import Djc.Proofs.Slotty
 import Djc.Spec.Render
 namespace Djc.Props.C01
 open Djc.Tpl Djc.Render Djc.Proofs.Render
@@ -174,6 +175,87 @@ theorem C01_full_partial_leaf_component_django (env : Env) (i : Nat) (name : Str
     w e s d toks st (by rw [hl]; rfl) hr hd hdyn hp ho hsrc hsteps hgcd hext hpar hprov hf1 hf2 hf3 hf4 hc hok he hsid hss hidle
     (by rw [hl]; exact hc2) (by intro k _; rw [hl]; rfl)
   exact ⟨h1, s', h2⟩
+
+/-- **"… else its own default content", end to end for one component** (django mode; the isolated counterpart is
+`Djc.Props.C03.leaf_component_with_slots_isolated`).  A component tag with an empty body — so no fill is addressed to
+any slot — whose template holds `{% slot %}` tags (not flagged `default`; nested in each other, in loops, under `if` /
+`with`, inside elements) with default content: through the whole deferred pipeline the model of the code prints what
+the reading of the property prints, i.e. every slot shows its own default content, rendered in the component's
+context.  `toks` is the reference interpreter's output for the template; all contexts, worlds, keyword arguments. -/
+theorem C01_full_partial_unfilled_slots_render_their_default_django (env : Env) (i : Nat) (name : Str)
+    (kwargs : List (Str × Expr)) (dyn : Bool) (ctx : Ctx) (w : World) (e : Djc.SpecRender.SEnv)
+    (s : Djc.SpecRender.SState) (d : CompDef) (toks : List Tok) (st : Nat)
+    (hmode : env.isolated = false)
+    (hr : env.raiseAt = none) (hd : findDef env name = some d) (hdyn : isDynName name = false)
+    (hp : Djc.Proofs.Slotty.slottyL d.template = true) (ho : Djc.Proofs.Slotty.okSL d.template = true)
+    (hsrc : d.data.all (fun kv => Djc.Proofs.Leaf.pureSrc kv.2) = true)
+    (hsteps : ¬ w.steps ≥ env.maxSteps) (hgcd : w.gcds < env.maxInst) (hext : isExtracting ctx = false)
+    (hpar : ∀ p, ctxGet ctx compKey ≠ some (.compRef p)) (hout : ctxGet (snapshot ctx) compKey = none)
+    (hprov : w.provideCache = [])
+    (hf1 : alGet w.nextId w.ctxCache = none) (hf2 : alGet w.nextId w.rendererCache = none)
+    (hf3 : alGet w.nextId w.childAttrs = none) (hf4 : w.allRefIds.contains w.nextId = false)
+    (hc : Djc.Proofs.Plain.ctxFree (Djc.Proofs.Leaf.leafCtx ctx w.nextId (evalKwargs ctx kwargs) d) = true)
+    (hfg : ctxGet (Djc.Proofs.Leaf.leafCtx ctx w.nextId (evalKwargs ctx kwargs) d) fillGenKey = none)
+    (hok : Djc.Proofs.Slotty.qNodes true env.maxSteps (i + 1) d.template
+      (Djc.Proofs.Leaf.leafCtx ctx w.nextId (evalKwargs ctx kwargs) d) (w.steps + 1) = (.ok toks, st))
+    (he : e.vars = ctx) (hsid : s.nextId = w.nextId) (hss : s.steps = w.steps) (hidle : ¬ s.nextId > env.maxInst)
+    (hc2 : Djc.Proofs.Plain.ctxFree (Djc.Proofs.LeafSpec.specVars false ctx w.nextId (evalKwargs ctx kwargs) d) = true) :
+    ((renderNode env (i + 6) (.comp name kwargs false dyn []) ctx).run.run w).1 =
+        .ok (.marker name w.nextId :: addRootAttrs [idAttr w.nextId] toks) ∧
+      ∃ s', (Djc.SpecRender.sNode env (i + 6) (.comp name kwargs false dyn []) e).run s =
+        .ok (.marker name w.nextId :: addRootAttrs [idAttr w.nextId] toks, s') := by
+  have hl : (false || env.isolated) = false := by rw [hmode]; rfl
+  obtain ⟨h1, s', h2, _⟩ := Djc.Proofs.Slotty.leaf_slotty_model_eq_spec env i name kwargs false dyn ctx ctx
+    w e s d toks st (by rw [hl]; rfl) hr hd hdyn hp ho hsrc hsteps hgcd hext hpar hout hprov hf1 hf2 hf3 hf4 hc hfg hok he hsid hss
+    hidle (by rw [hl]; exact hc2) (by intro k _; rw [hl]; rfl)
+  exact ⟨h1, s', h2⟩
+
+/-! ### the hypotheses of the slot theorem are satisfiable -/
+
+section SlotExample
+deriving instance DecidableEq for Err
+deriving instance DecidableEq for Except
+
+def exDef : CompDef :=
+  { name := "c0".toList,
+    template := [.elem "div".toList [.slot (.lit "s".toList) false false [] [.text "dflt".toList, .out (.var ["a".toList])]],
+                 .out (.var ["x".toList])],
+    data := [("a".toList, .kwarg "a".toList)] }
+def exEnv : Env := { isolated := false, lib := [exDef] }
+def exCtx : Ctx := rootCtx [("x".toList, .str "X".toList)]
+
+/-- `{% component "c0" a="A" %}{% endcomponent %}` in django mode, template
+`<div>{% slot "s" %}dflt{{ a }}{% endslot %}</div>{{ x }}`: the unfilled slot shows its default content, rendered
+with the component's data; the page's `x` is visible (django mode); the root element carries the id. -/
+example :
+    ((renderNode exEnv 14 (.comp "c0".toList [("a".toList, .lit "A".toList)] false false []) exCtx).run.run {}).1 =
+      .ok [.marker "c0".toList 1, .opn "div".toList [idAttr 1], .text "dflt".toList, .text "A".toList,
+           .cls "div".toList, .text "X".toList] := by
+  have h0 : (ctxGet exCtx compKey).isNone = true := by decide +kernel
+  have hpar : ∀ p, ctxGet exCtx compKey ≠ some (.compRef p) := by
+    intro p hp; rw [hp] at h0; cases h0
+  have h1 : (ctxGet (snapshot exCtx) compKey).isNone = true := by decide +kernel
+  have hout : ctxGet (snapshot exCtx) compKey = none := by
+    cases h : ctxGet (snapshot exCtx) compKey with
+    | none => rfl
+    | some v => rw [h] at h1; cases h1
+  have h2 : (ctxGet (Djc.Proofs.Leaf.leafCtx exCtx 1 (evalKwargs exCtx [("a".toList, .lit "A".toList)]) exDef) fillGenKey).isNone = true := by
+    decide +kernel
+  have hfg : ctxGet (Djc.Proofs.Leaf.leafCtx exCtx 1 (evalKwargs exCtx [("a".toList, .lit "A".toList)]) exDef) fillGenKey = none := by
+    cases h : ctxGet (Djc.Proofs.Leaf.leafCtx exCtx 1 (evalKwargs exCtx [("a".toList, .lit "A".toList)]) exDef) fillGenKey with
+    | none => rfl
+    | some v => rw [h] at h2; cases h2
+  have hfd : findDef exEnv "c0".toList = some exDef := by
+    simp [findDef, exEnv, exDef]
+  have h := (C01_full_partial_unfilled_slots_render_their_default_django exEnv 8 "c0".toList [("a".toList, .lit "A".toList)] false
+    exCtx {} (.mk exCtx [] none []) {} exDef
+    [.opn "div".toList [], .text "dflt".toList, .text "A".toList, .cls "div".toList, .text "X".toList] 6
+    rfl rfl hfd (by decide +kernel) (by decide +kernel) (by decide +kernel) (by decide +kernel) (by decide +kernel)
+    (by decide +kernel) (by decide +kernel) hpar hout rfl rfl rfl rfl rfl (by decide +kernel) hfg (by decide +kernel)
+    rfl rfl rfl (by decide +kernel) (by decide +kernel)).1
+  rw [h]
+  decide +kernel
+end SlotExample
 
 /-- The property at full strength, as a statement about the two interpreters: whenever neither
 runs out of fuel, the model of the code and the property's reading produce the same tokens up to
